@@ -165,6 +165,10 @@ class DomReaderHarness(object):
         def stub(I_, fi, args, kwargs, node):
             oi = getattr(self, 'open_ids', None)
             recs = [materialise_record(sid, shape, self.open_options and (oi is None or sid in oi), i) for i, (sid, shape) in enumerate(shapes)]
+            hook = getattr(self, 'record_hook', None)
+            if hook is not None:
+                for i, ((sid, shape), rec) in enumerate(zip(shapes, recs)):
+                    hook(i, sid, rec)
             I_.emit('dom-records', node, {'records': recs})
             return AList(recs)
         I.stubs[it.qualname] = stub
